@@ -856,7 +856,10 @@ Definition c17_request (toks : list (list N)) : list (list N) :=
   | _ => REJECT_TOK
   end.
 
-From TT Require Import Model.Forwarded.
+From TT Require Import Model.Forwarded Generated.ForwardedFacts.
+
+(* the chunk-size line parser of the executable model under the line limit the code states *)
+Definition c17_psize : list N -> csize := bounded (N.to_nat FWD_MAX_CHUNK_SIZE_LINE) psize_c.
 
 (* in: [mode; n] body_stream seg_sizes accepts    mode 0 close-delimited | 1 Content-Length n | 2 chunked
    out: [end: 0 complete | 1 more expected | 2 error] delivered *)
@@ -865,7 +868,7 @@ Definition c17_body (toks : list (list N)) : list (list N) :=
   | [mode; n] :: stream :: sizes :: accs :: _ =>
     let st0 := if mode =? 0 then BNon None 0
                else if mode =? 1 then BNon (Some (N.to_nat n)) 0 else BPrefix [] in
-    let '(st, out) := drive psize_c st0 (c08_split stream sizes) (map N.to_nat accs) [] in
+    let '(st, out) := drive c17_psize st0 (c08_split stream sizes) (map N.to_nat accs) [] in
     [[match st with BDone => 0 | BErr => 2 | _ => 1 end]; out]
   | _ => REJECT_TOK
   end.
